@@ -235,7 +235,7 @@ Proof.
     destruct (sk_of_tk_signable wk k Hb V) as [S U]. cbn zeta in *. rewrite U. split; [reflexivity|].
     cbn [stmt]. rewrite W1, E.
     destruct (vkey_witness_signs_hash P h _ LN LE S) as (A & B & C). cbn zeta in *.
-    rewrite C, A, B, !list_eqb_refl. reflexivity. }
+    rewrite C. cbn [make_vkey_witness vw_vkey vw_sig]. rewrite !list_eqb_refl, obs_eqb_refl. reflexivity. }
   destruct (wk =? 2) eqn:W2.
   { unfold xprv_from_bytes. destruct (kt_from_binary_cases T_xprv k) as [E|E]; rewrite E; [|split; reflexivity].
     split; [reflexivity|]. cbn [stmt]. rewrite W1.
@@ -248,7 +248,8 @@ Proof.
   rewrite nth31_first64, C.
   destruct (daedalus_witness_signs_hash P h (byron_attributes dp mg) k LE LS (conj L Hb)) as (w & A & B1 & B2 & B3 & B4 & _ & B6);
     [rewrite nth31_first64; exact C|].
-  rewrite A. split; [reflexivity|]. cbn [stmt]. rewrite W1, B3, B1, B2, B4, B6, !list_eqb_refl, obs_eqb_refl. reflexivity.
+  rewrite A. destruct w as [wv ws wc wa]. cbn [bw_vkey bw_sig bw_cc bw_attrs] in *. subst wv ws wc wa.
+  split; [reflexivity|]. cbn [stmt]. rewrite W1, B3, !list_eqb_refl, obs_eqb_refl. reflexivity.
 Qed.
 
 (* ---------- derivation ---------- *)
